@@ -5,7 +5,8 @@ From Sekai Require Import Base.Prelude Base.Dec Model.Monetary.
 
 (* result class of one operation on the real code: 0 ok, 1 rejected, 2 panic *)
 Inductive obs : Type :=
-| BObs (res : Z) (s_begin s_ubi : Z) (ps ys : snap) (ubis : list ubi) (pool0 : Z) (regn : Z)   (* block; regn = registry supply of the native token *)
+| BObs (res : Z) (s_begin s_ubi : Z) (ps ys : snap) (ubis : list ubi) (pool0 : Z) (regn : Z) (mints : list Z)
+    (* block; regn = registry supply of the native token; mints = native amounts minted by the ubi end blocker, in order *)
 | TObs (res : Z) (nat_after : Z) (t : option tok) (bank_d : Z)                        (* token operation on denom d *)
 | UObs (res : Z) (nat_after : Z) (ubis : list ubi)                                    (* ubi proposal *)
 | PObs (res : Z) (nat_after : Z).                                                     (* parameters, fee flow *)
@@ -29,8 +30,9 @@ Fixpoint list_eqb {A} (e : A -> A -> bool) (l m : list A) : bool :=
   match l, m with [] , [] => true | x :: l', y :: m' => (e x y && list_eqb e l' m')%bool | _, _ => false end.
 Definition obs_eqb (a b : obs) : bool :=
   match a, b with
-  | BObs r1 a1 b1 p1 y1 u1 q1 g1, BObs r2 a2 b2 p2 y2 u2 q2 g2 =>
+  | BObs r1 a1 b1 p1 y1 u1 q1 g1 m1, BObs r2 a2 b2 p2 y2 u2 q2 g2 m2 =>
       (r1 =? r2) && (a1 =? a2) && (b1 =? b2) && snap_eqb p1 p2 && snap_eqb y1 y2 && list_eqb ubi_eqb u1 u2 && (q1 =? q2) && (g1 =? g2)
+      && list_eqb Z.eqb m1 m2
   | TObs r1 n1 t1 b1, TObs r2 n2 t2 b2 => (r1 =? r2) && (n1 =? n2) && otok_eqb t1 t2 && (b1 =? b2)
   | UObs r1 n1 u1, UObs r2 n2 u2 => (r1 =? r2) && (n1 =? n2) && list_eqb ubi_eqb u1 u2
   | PObs r1 n1, PObs r2 n2 => (r1 =? r2) && (n1 =? n2)
@@ -55,7 +57,7 @@ Definition init_state (i : init) : st :=
 
 Definition op_denom (o : op) : Z :=
   match o with
-  | OUpsertMsg _ _ d _ _ _ _ _ _ => d | OPropUpsert d _ _ _ _ _ _ => d | OMintIssue _ d _ => d | OBurn _ d _ => d
+  | OUpsertMsg _ _ d _ _ _ _ _ _ => d | OPropUpsert d _ _ _ _ _ _ => d | OMintIssue _ d _ => d | OMintIssue2 _ d _ _ => d | OBurn _ d _ => d
   | _ => native end.
 
 Definition reg_native (s : st) : Z := match aget native (s_reg s) with Some t => t_supply t | None => 0 end.
@@ -65,8 +67,8 @@ Definition model_obs (s : st) (o : op) : st * obs :=
   match o with
   | OBlock dt =>
       match block_parts cf s dt with
-      | Ok (s1, s2, s3) => (s3, BObs 0 (nat_supply s1) (nat_supply s2) (s_psnap s3) (s_ysnap s3) (s_ubis s3) (zget 0 (s_pools s3)) (reg_native s3))
-      | r => (s, BObs (res_of r) (nat_supply s) (nat_supply s) (s_psnap s) (s_ysnap s) (s_ubis s) (zget 0 (s_pools s)) (reg_native s))
+      | Ok (s1, s2, s3) => (s3, BObs 0 (nat_supply s1) (nat_supply s2) (s_psnap s3) (s_ysnap s3) (s_ubis s3) (zget 0 (s_pools s3)) (reg_native s3) (ubi_mints cf (s_ubis s1) s1))
+      | r => (s, BObs (res_of r) (nat_supply s) (nat_supply s) (s_psnap s) (s_ysnap s) (s_ubis s) (zget 0 (s_pools s)) (reg_native s) [])
       end
   | OParams _ _ _ | OHardcap _ | OFee _ _ =>
       let r := step cf s o in let s' := step_total cf s o in (s', PObs (res_of r) (nat_supply s'))
@@ -136,13 +138,18 @@ Definition chk_infl_target (native_before : Z) (ps : snap) (pr : params) (now sb
 Definition chk_annual_gate (native_before : Z) (ys : snap) (pr : params) (now su : Z) : bool :=
   if spec_gate_closed ys (p_maxann pr) native_before now then su =? native_before else true.
 Definition chk_origin (native_before n : Z) : bool := n <=? native_before.
+Fixpoint chk_ubi_gate (ys : snap) (pr : params) (now running : Z) (mints : list Z) : bool :=
+  match mints with
+  | [] => true
+  | m :: r => negb (spec_gate_closed ys (p_maxann pr) running now) && (0 <? m) && chk_ubi_gate ys pr now (running + m) r
+  end.
 
 Definition with_native (k : cst) (n : Z) : cst := mkCst (k_now k) (k_params k) (k_psnap k) (k_ysnap k) n (k_ubis k) (k_toks k).
 
 (* clauses for one step; returns the clauses violated and the next checker state *)
 Definition check_step (k : cst) (o : op) (ob : obs) : list string * cst :=
   match o, ob with
-  | OBlock dt, BObs res sb su ps ys ubis _ regn =>
+  | OBlock dt, BObs res sb su ps ys ubis _ regn mints =>
       if negb (res =? 0) then ([], k) else
       let now := k_now k + dt in
       let pr := k_params k in
@@ -151,6 +158,10 @@ Definition check_step (k : cst) (o : op) (ob : obs) : list string * cst :=
         cl (chk_infl_target (k_native k) (k_psnap k) pr now sb) "infl_target"
         (* no minting (inflation or UBI) once the pro-rated annual maximum is reached *)
         ++ cl (chk_annual_gate (k_native k) (k_ysnap k) pr now su) "annual_gate"
+        (* ... and, record by record inside the block: every UBI mint happens with the gate still open
+           at the supply reached just before it (inflation of this block and earlier records included) *)
+        ++ cl (chk_ubi_gate (k_ysnap k) pr now sb mints) "ubi_gate"
+        ++ cl (zsum mints =? su - sb) "ubi_mints"
         (* UBI pays at most the amount of every due record *)
         ++ cl ((sb <=? su) && (su - sb <=? spec_ubi_due_total now (k_ubis k))) "ubi_payout"
         (* snapshots record the actual supply at the time they are taken *)
@@ -184,7 +195,7 @@ Definition check_step (k : cst) (o : op) (ob : obs) : list string * cst :=
        mkCst (k_now k) (k_params k) (k_psnap k) (k_ysnap k) n ubis (k_toks k))
   | _, TObs res n t bank =>
       let d := match o with
-               | OUpsertMsg _ _ d _ _ _ _ _ _ => d | OPropUpsert d _ _ _ _ _ _ => d | OMintIssue _ d _ => d | OBurn _ d _ => d
+               | OUpsertMsg _ _ d _ _ _ _ _ _ => d | OPropUpsert d _ _ _ _ _ _ => d | OMintIssue _ d _ => d | OMintIssue2 _ d _ _ => d | OBurn _ d _ => d
                | _ => native end in
       let v := view_of k d in
       let rs := reg_supply_of (v_tok v) in
@@ -200,6 +211,9 @@ Definition check_step (k : cst) (o : op) (ob : obs) : list string * cst :=
              | OMintIssue _ _ amt =>
                  (* recorded supply grows by exactly what is minted *)
                  cl ((rs' - rs =? bank - v_bank v) && (bank - v_bank v =? amt) && (0 <? amt)) "reg_tracks"
+             | OMintIssue2 _ _ a1 a2 =>
+                 (* two mints in one transaction: the registry and the bank both grow by the SUM *)
+                 cl ((rs' - rs =? bank - v_bank v) && (bank - v_bank v =? a1 + a2) && (0 <? a1) && (0 <? a2)) "reg_tracks"
              | OBurn _ _ amt => cl ((rs' - rs =? bank - v_bank v) && (bank - v_bank v =? - amt) && (0 <? amt)) "reg_tracks"
              | OUpsertMsg actor perm _ _ _ _ _ _ _ =>
                  match v_tok v with
